@@ -5,7 +5,7 @@ import random
 
 from .. import gen
 from .. import workloads as W
-from ..ast import Desc, DistAst, MolAst, StochAst, SysAst
+from ..ast import fmt_float, Desc, DistAst, MolAst, StochAst, SysAst
 from ..monitors import trace
 from ..oracles.parse import molecules_of
 from ..util import StepTimeout, time_limit
@@ -86,14 +86,17 @@ def run_isomers(case):
     parts = []
     for i, (sm, p) in enumerate(zip(smis, pct)):
         if mode == "abs" or (mode == "mixed" and i % 2 == 0) or (mode == "pct" and i == n - 1):
-            parts.append(f"{sm}.|{p / 100.0 * M!r}|")
+            parts.append(f"{sm}.|{fmt_float(p / 100.0 * M, rng.randrange(6))}|")  # every spelling of a number, exponent forms included
         else:
-            parts.append(f"{sm}.|{p}%|")
+            parts.append(f"{sm}.|{fmt_float(p, rng.randrange(6))}%|")
     text = "".join(parts)
     S = gbigsmiles.System(text)
     if not S.generable:
         return {"viol": [{"cls": "c14.system-not-generable", "msg": f"System({text!r}) not generable", "text": text}], "cnt": {}, "nt": []}
-    declared = [mm.mixture.relative_mass / 100.0 for mm in molecules_of(S)]
+    declared = [p / 100.0 for p in pct]  # what was WRITTEN, not what the library read
+    mis = misread(S, declared, text)
+    if mis:
+        return {"viol": [mis], "cnt": {}, "nt": []}
     canon = [Chem.MolToSmiles(Chem.MolFromSmiles(x)) for x in smis]
     cnt = collections.Counter()
     viol = []
@@ -127,6 +130,14 @@ def run_isomers(case):
     return {"viol": viol, "nt": ["isomers:" + text], "cnt": dict(cnt), "sample": {"equal_mass_system": text, "declared": declared, "generated_shares": [round(x, 4) for x in sh], "molecules": round(N)}}
 
 
+def misread(S, declared, text):
+    """the mass fractions the library holds must be the written ones"""
+    got = [mm.mixture.relative_mass / 100.0 for mm in molecules_of(S)]
+    if len(got) != len(declared) or any(abs(a - b) > 1e-9 for a, b in zip(got, declared)):
+        return {"cls": "c14.declared-fractions-misread", "msg": f"System({text!r}) declares the mass fractions {[round(x, 6) for x in declared]}, the parsed system holds {[round(x, 6) for x in got]}", "text": text}
+    return None
+
+
 def np_rng(seed):
     import numpy as np
 
@@ -155,12 +166,15 @@ def run_case(case):
     M = round(mean_mol * case["nmol"], 0)
     for m, p in zip(s.mols, pct):
         m.mixture = ("abs", p / 100.0 * M)
-        m.mfmt = 4
+        m.mfmt = rng.randrange(6)  # every spelling of a number, exponent forms included
     text = s.to_text()
     S = gbigsmiles.System(text)
     if not S.generable:
         return {"viol": [{"cls": "c14.system-not-generable", "msg": f"System({text!r}) not generable", "text": text}], "cnt": {}, "nt": []}
-    declared = [mm.mixture.relative_mass / 100.0 for mm in molecules_of(S)]
+    declared = [p / 100.0 for p in pct]  # what was WRITTEN, not what the library read
+    mis = misread(S, declared, text)
+    if mis:
+        return {"viol": [mis], "cnt": {}, "nt": []}
     # membership of a yielded molecule is read off the molecule itself (residue numbers are unique per component)
     # (residue numbers are not unique across components, the token texts recorded on MolGen.graph are by construction)
     tokens_of = [set(str(t) for t in mm.residues) for mm in molecules_of(S)]
